@@ -23,14 +23,17 @@ VAL_ALPHA = ["a", " ", "\x1b", "[", "\x9b", ";", "m", "3", "1", "\x01", "\x02", 
 HTML_VAL_ALPHA = ["a", " ", "<", ">", "&", '"', "'", "=", "\x1b", "\x9b", "\x01", "\x02", "{", "}", "%",
                   ":", ";", "/", "\n", "\xa0", "\xe9", "b", "]"]
 BREAKOUT_ALPHA = ["'", " ", "=", "b", "g", "x", "/"]
-HTML_RAW_ALPHA = ["<", ">", "/", "b", " ", "&", ";", "a", "=", "'", '"']
+HTML_RAW_ALPHA = ["<", ">", "/", "b", " ", "&", ";", "a", "=", "'", '"', "#", "6"]
+HTML_SPECIAL_DOCS = ["&#65;&#x42;&#x1F600;", "&#0;", "&#x1b;", "&#xD800;", "&#x110000;", "&#X41;", "&#;", "&#x;", "&#65", "&#1114111;",
+                     "&#1114112;", "&#9;&#10;&#13;|", "<b fg=\"&#35;f00\">x</b>", "&#x26;lt;", "&#00065;", "&#xfffe;", "&#xFFFD;", "&#x3c;b&#x3e;",
+                     "<i bg='&#32;'>x</i>", "<i bg='a&#9;b'>x</i>", "&#6" + "6" * 30 + ";", "&#xa;&#xd;", "a<!-- c -->b", "a<![CDATA[x]]>b", "a<?p d?>b"]
 HTML_SPECIAL_VALUES = ["]]>", "]]", "a]]>b", "&#65;", "&amp;", "&lt;b&gt;", "<b>", "</b>", "<!--", "-->", "<![CDATA[", "<?x?>",
                        "</html-root>", "<html-root>", "red' bg='blue", 'red" bg="blue', "red\xa0bold", "a\tb", "\x1b[0m", "\ufffe",
                        "%s", "{}", "{0}", "%(a)s", "&apos;", "&quot;", "x' y='z", "'/><b>", "\U0001f600", "\x7f\x85"]
 BENIGN = "\u0101\u0113\u012b\u014d"                                # one private letter per hole; templates never contain them
 
 OPN = {1: "split_lines", 2: "fragment-helpers", 3: "ANSI", 4: "ANSI-interpolation", 5: "escape",
-       6: "HTML", 7: "HTML-interpolation", 8: "to_formatted_text", 9: "ANSI-plain-text"}
+       6: "HTML", 7: "HTML-interpolation", 8: "to_formatted_text", 9: "ANSI-plain-text", 10: "_ExplodedList", 11: "fragment_list_width", 12: "PygmentsTokens"}
 
 
 def xml_char(c):
@@ -90,7 +93,11 @@ def _exc(e):
 
 def _markup(cls, f):
     try:
-        r = with_watchdog(f, 5)
+        try:
+            r = with_watchdog(f, 5)
+        except Hang:
+            # a stalled machine (1.3M cases in memory, shared cores) is not a hang of the code: once more, patiently
+            r = with_watchdog(f, 60)
         return [0, canon_frags(list(r.__pt_formatted_text__()))]
     except BaseException as e:  # noqa
         if isinstance(e, (KeyboardInterrupt, SystemExit)):
@@ -109,7 +116,7 @@ FORMAT_SPECS = [">4", "<6", "^5", ".3", "8.2", "_^7", "6.4", ">1", ".0"]
 PERCENT_SPECS = {">4": "%4s", "<6": "%-6s", ".3": "%.3s", "8.2": "%-8.2s", "6.4": "%-6.4s", ">1": "%1s", ".0": "%.0s"}
 
 
-def run_template(cls, parts, vals, specs=None, raw=None):
+def run_template(cls, parts, vals, specs=None, raw=None, pspecs=None):
     """Every engine/field syntax must give the same result; [97, r_mod, r_other] when two disagree:
     the % operator, and format() with {} / {:s} / {!s} / {0}.. / {name} fields.
     With `specs` (one format spec per field) and `raw` values, vals[j] == format(raw[j], specs[j])
@@ -140,6 +147,15 @@ def run_template(cls, parts, vals, specs=None, raw=None):
         r2 = _markup(cls, lambda: cls(t).format(*a, **kw))
         if r1 != r2:
             return [97, r1, r2]
+    if pspecs:
+        # explicit % conversions (%d, %5.1f, %x, %r, ...) on raw, possibly non-string, values: vals[j] == pspecs[j] % (raw[j],)
+        plit = [p.replace("%", "%%") for p in parts]
+        t = join(lambda j: pspecs[j], plit)
+        arg2 = tuple(raw) if (len(raw) != 1 or isinstance(raw[0], (tuple, dict)) or len(vals[0]) % 2 == 0) else raw[0]
+        r3 = _markup(cls, lambda: cls(t) % arg2)
+        if r1 != r3:
+            return [96, r1, r3]
+        return r1
     if specs and all(sp in PERCENT_SPECS for sp in specs):
         plit = [p.replace("%", "%%") for p in parts]
         t = join(lambda j: PERCENT_SPECS[specs[j]], plit)
@@ -269,6 +285,61 @@ def run_convert(tree, style, ac, times=3):
     return results[0]
 
 
+def run_exploded(frs, ops):
+    """explode_text_fragments(frs), then the operations; the list after each one (or an exception code)"""
+    from prompt_toolkit.layout.utils import explode_text_fragments
+    lst = explode_text_fragments(to_tuples(frs))
+    out = []
+    for op in ops:
+        try:
+            if op[0] == 1:
+                lst[op[1]] = to_tuples([op[2]])[0]
+            elif op[0] == 2:
+                lst[op[1]:op[2]] = to_tuples(op[3])
+            elif op[0] == 3:
+                lst.append(to_tuples([op[1]])[0])
+            elif op[0] == 4:
+                lst.extend(to_tuples(op[1]))
+            elif op[0] == 5:
+                lst += to_tuples(op[1])
+            again = explode_text_fragments(lst)           # "a null operation" on an exploded list
+            out.append(canon_frags(list(again)))
+        except BaseException as e:  # noqa
+            if isinstance(e, (KeyboardInterrupt, SystemExit)):
+                raise
+            out.append([96] if isinstance(e, IndexError) else _exc(e))
+    return out
+
+
+def oracle_exploded(frs, ops, res):
+    cur = [[f[0], [c], f[2]] for f in frs for c in f[1]]
+    for op, after in zip(ops, res):
+        name = {1: "lst[%r] = item" % (op[1],), 2: "lst[%r:%r] = items" % tuple(op[1:3]) if op[0] == 2 else "", 3: "append",
+                4: "extend", 5: "lst += items"}[op[0]]
+        if not (isinstance(after, list) and all(isinstance(f, list) and len(f) == 3 for f in after)):
+            if op[0] == 1 and not (-len(cur) <= op[1] < len(cur)):
+                return None                     # an index outside the list may raise
+            return ("_ExplodedList %s raised (%r)" % (name, after), {"op": "_ExplodedList", "family": "raises"})
+        if any(len(f[1]) != 1 for f in after):
+            return ("_ExplodedList %s on %s left a fragment that is not a single character: %s" % (name, short(to_tuples(cur), 80), short(to_tuples(after), 120)),
+                    {"op": "_ExplodedList", "family": "iadd-not-exploded" if op[0] == 5 else "not-exploded"})
+        if op[0] == 1 and -len(cur) <= op[1] < len(cur):
+            j = op[1] % len(cur)
+            v = op[2]
+            want = cur[:j] + [[v[0], [c], v[2]] for c in v[1]] + cur[j + 1:]
+            if after != want:
+                return ("_ExplodedList %s on %s gave %s, expected item %d replaced: %s" % (name, short(to_tuples(cur), 80), short(to_tuples(after), 100), j, short(to_tuples(want), 100)),
+                        {"op": "_ExplodedList", "family": "setitem-minus-one-inserts" if op[1] == -1 else "setitem"})
+        if op[0] in (3, 4, 5):
+            add = [op[1]] if op[0] == 3 else op[1]
+            want = cur + [[f[0], [c], f[2]] for f in add for c in f[1]]
+            if after != want:
+                return ("_ExplodedList %s: %s, expected %s" % (name, short(to_tuples(after), 100), short(to_tuples(want), 100)),
+                        {"op": "_ExplodedList", "family": "extend"})
+        cur = after
+    return None
+
+
 def impl_case(case, m=None):
     from prompt_toolkit.formatted_text import ANSI, HTML, to_formatted_text
     from prompt_toolkit.formatted_text.ansi import ansi_escape
@@ -290,7 +361,7 @@ def impl_case(case, m=None):
             return _markup(ANSI, lambda: ANSI(s))
         if k == 4:
             return run_template(ANSI, [unS(p) for p in case[1]], [unS(v) for v in case[2]],
-                                (m or {}).get("specs"), (m or {}).get("raw"))
+                                (m or {}).get("specs"), (m or {}).get("raw"), (m or {}).get("pspecs"))
         if k == 5:
             s = unS(case[1])
             return [S(ansi_escape(s)), S(html_escape(s))]
@@ -299,6 +370,18 @@ def impl_case(case, m=None):
             return _markup(HTML, lambda: HTML(s))
         if k == 8:
             return run_convert(m["tree"], unS(case[1]), bool(case[2]))
+        if k == 11:
+            from prompt_toolkit.formatted_text.utils import fragment_list_width
+            return fragment_list_width(to_tuples(case[2]))
+        if k == 12:
+            from prompt_toolkit.formatted_text import PygmentsTokens
+            toks = [(tuple(unS(p) for p in t[0]), unS(t[1])) for t in case[1]]
+            obj = PygmentsTokens(toks)
+            r1 = canon_frags(list(to_formatted_text(obj)))
+            r2 = canon_frags(list(to_formatted_text(obj)))
+            return r1 if r1 == r2 else [95, r1, r2]
+        if k == 10:
+            return run_exploded(case[1], case[2])
         if k == 9:
             from prompt_toolkit.formatted_text import to_plain_text
             s = unS(case[1])
@@ -306,7 +389,7 @@ def impl_case(case, m=None):
             return [S(to_plain_text(a)), [S(t) for st, t in a.__pt_formatted_text__() if ZWE in st]]
         if k == 7:
             return run_template(HTML, [unS(p) for p in case[1]], [unS(v) for v in case[2]],
-                                (m or {}).get("specs"), (m or {}).get("raw"))
+                                (m or {}).get("specs"), (m or {}).get("raw"), (m or {}).get("pspecs"))
     except BaseException as e:  # noqa
         if isinstance(e, (KeyboardInterrupt, SystemExit)):
             raise
@@ -540,7 +623,7 @@ def _causes(kind):
             ("attr-unicode-space", lambda h, v: "".join("a" if (c.isspace() and c not in " \t\n\r") else c for c in v) if h != "t" else v)]
 
 
-def oracle_inert(kind, parts, vals, holes, run):
+def oracle_inert(kind, parts, vals, holes, run, m=None):
     """Interpolating `vals` must differ from interpolating benign same-length
     words only in those characters (text holes) / that attribute value (attribute
     holes).  holes[j] = 't' | 'd' | 's' (text, double-, single-quoted attribute).
@@ -553,6 +636,9 @@ def oracle_inert(kind, parts, vals, holes, run):
     if "disagree" in what:
         return (what, {"op": op, "family": "engines-differ"})
     if "width/precision conversion" in what:
+        if m and m.get("pspecs") and any(not isinstance(r, str) for r in m["raw"]):
+            return (what + " [%% conversions %r on raw values %r]" % (m["pspecs"], m["raw"]),
+                    {"op": op, "family": "percent-conversion-non-string"})
         return (what, {"op": op, "family": "percent-conversion-on-escaped-text"})
     fam = "other"
     cur = list(vals)
@@ -571,13 +657,20 @@ def oracle_inert(kind, parts, vals, holes, run):
 
 NAMES = ["b", "i", "u", "s", "style", "username", "html-root", "x-y.z", "A_1"]
 ATTRS = ["fg", "bg", "color"]
-ATTVALS = ["red", "#ff0000", "ansiblue", "", "a b", "x&amp;y", "&lt;", "it&apos;s", ">"]
-TEXTS = ["a", "b c", " ", "\n", "&amp;", "&lt;", "&gt;", "&quot;", "&apos;", "a>b", '"', "'", "\xe9", "x=y", "\u754c", "[", "]"]
+ATTVALS = ["red", "#ff0000", "ansiblue", "", "a b", "x&amp;y", "&lt;", "it&apos;s", ">", "&#35;00ff00", "a&#x2d;b"]
+TEXTS = ["a", "b c", " ", "\n", "&amp;", "&lt;", "&gt;", "&quot;", "&apos;", "a>b", '"', "'", "\xe9", "x=y", "\u754c", "[", "]", "&#65;", "&#x3c;", "&#x1F600;"]
 ENT = {"&amp;": "&", "&lt;": "<", "&gt;": ">", "&quot;": '"', "&apos;": "'"}
 
 
 def unent(s):
-    return re.sub("&(amp|lt|gt|quot|apos);", lambda m: ENT[m.group(0)], s)
+    def one(m):
+        n = m.group(1)
+        if n.startswith("#x"):
+            return chr(int(n[2:], 16))
+        if n.startswith("#"):
+            return chr(int(n[1:]))
+        return ENT[m.group(0)]
+    return re.sub("&(amp|lt|gt|quot|apos|#[0-9]+|#x[0-9a-fA-F]+);", one, s)
 
 
 def gen_tree(rng, depth, holes, maxholes):
@@ -838,6 +931,18 @@ def gen_cases(chk):
                     add("%s-template/format-spec" % ("ANSI" if kk == 4 else "HTML"),
                         [kk, [S(p) for p in parts], [S(x) for x in vals]], {"holes": holes, "specs": specs, "raw": raw})
 
+    # ---- % conversions other than %s, on non-string values: the conversion's OUTPUT, escaped, as inert text
+    pconv = [("%d", 5), ("%d", -12), ("%5d", 42), ("%-4d", 7), ("%05.1f", 3.14159), ("%x", 255), ("%X", 255), ("%c", 65), ("%c", "<"),
+             ("%r", "<&"), ("%r", 5), ("%s", 5), ("%s", None), ("%10s", 3.5), ("%e", 12345.678), ("%g", 0.5), ("%i", 3), ("%o", 8),
+             ("%a", "\xe9<"), ("%s", "plain"), ("%.2s", 12345)]
+    for kk, tpls in ((4, [["a", "b"], ["\x1b[31m", "|\x1b[0m"]]), (7, [["<b>", "</b>|"], ["", ""], ["<style fg=\"", "\">x</style>"]])):
+        for parts in tpls:
+            for sp, rv in pconv:
+                val = sp % (rv,)
+                add("%s-template/percent-conversions" % ("ANSI" if kk == 4 else "HTML"),
+                    [kk, [S(p) for p in parts], [S(val)]],
+                    {"holes": ["d" if "fg=" in parts[0] else "t"], "pspecs": [sp], "raw": [rv]})
+
     # ---- escape functions
     esc_alpha = sorted(set(VAL_ALPHA + HTML_VAL_ALPHA + ["\x00", "\ufffe", "\x7f", "\x85"]))
     for w in words(esc_alpha, 2):
@@ -855,6 +960,8 @@ def gen_cases(chk):
             mut = rng.choice([s[:i] + s[i + 1:], s[:i] + rng.choice(HTML_RAW_ALPHA + ["\x1b", "\r", "\t", "]]>"]) + s[i:],
                               s[:i] + s[i:][::-1][:3] + s[i:]])
             add("HTML/mutated", [6, S(mut)])
+    for sdoc in HTML_SPECIAL_DOCS:
+        add("HTML/special", [6, S(sdoc)])
     for w in words(HTML_RAW_ALPHA, 5 if thorough else 4):
         add("HTML/raw-exhaustive<=%d" % (5 if thorough else 4), [6, S(w)])
 
@@ -879,6 +986,53 @@ def gen_cases(chk):
         if rng.random() < 0.5:
             vals = [re.sub("[ \n\xa0'\x1b\x01\x02]", "a", v) for v in vals]      # a benign-ish half
         add("HTML-template/random", [7, [S(p) for p in parts], [S(v) for v in vals]], {"holes": holes})
+
+    # ---- fragment_list_width (per-character widths from the running wcwidth) and PygmentsTokens
+    from prompt_toolkit.utils import get_cwidth
+    wide = ["a", " ", "\u754c", "\xe9", "e\u0301"[1], "\x00", "\x1b", "\n", "\U0001f600", "\u200b", "\t"]
+    for _ in range(8000 if thorough else 1200):
+        frs = [[S(rng.choice(["", "bold", ZWE, "x " + ZWE])), S("".join(rng.choice(wide) for _ in range(rng.randint(0, 4)))), rng.choice([[], [1]])]
+               for _ in range(rng.randint(0, 4))]
+        chars = sorted(set(c for f in frs for c in f[1]))
+        add("fragment_list_width/random", [11, [[c, get_cwidth(chr(c))] for c in chars], frs])
+    names = ["Name", "Exception", "Keyword", "Literal", "String", "Z", "ZeroWidthEscape", "[ZeroWidthEscape]", "a_b", "X1"]
+    for _ in range(4000 if thorough else 600):
+        toks = [[[S(rng.choice(names)) for _ in range(rng.randint(0, 3))], S("".join(rng.choice(["a", "\n", " ", "\u754c"]) for _ in range(rng.randint(0, 3))))]
+                for _ in range(rng.randint(0, 4))]
+        add("PygmentsTokens/random", [12, toks])
+
+    # ---- _ExplodedList: assignment by index / slice, append, extend, +=
+    fr3 = [[S("a"), S("xy"), []], [S("b"), S("z"), [4]]]
+    items = [[S("c"), S("Q"), []], [S("c"), S("QR"), [1]], [S(""), S(""), []], [S(ZWE), S("\n"), []]]
+    for base in ([], fr3[:1], fr3):
+        n = sum(len(f[1]) for f in base)
+        for it in items:
+            for i in range(-n - 2, n + 3):
+                add("_ExplodedList/exhaustive", [10, base, [[1, i, it]]])
+            add("_ExplodedList/exhaustive", [10, base, [[3, it]]])
+            add("_ExplodedList/exhaustive", [10, base, [[4, [it, it]]]])
+            add("_ExplodedList/exhaustive", [10, base, [[5, [it]]]])
+            for lo in range(-n - 1, n + 2):
+                for hi in range(-n - 1, n + 2):
+                    add("_ExplodedList/exhaustive", [10, base, [[2, lo, hi, [it]]]])
+    for _ in range(6000 if thorough else 800):
+        base = [[S(rng.choice(["", "s", ZWE])), S("".join(rng.choice("ab\n") for _ in range(rng.randint(0, 3)))), rng.choice([[], [2]])]
+                for _ in range(rng.randint(0, 3))]
+        ops = []
+        for _ in range(rng.randint(1, 5)):
+            it = [S(rng.choice(["", "k"])), S("".join(rng.choice("pq") for _ in range(rng.randint(0, 3)))), rng.choice([[], [9]])]
+            r = rng.random()
+            if r < 0.4:
+                ops.append([1, rng.randint(-5, 5), it])
+            elif r < 0.6:
+                ops.append([2, rng.randint(-5, 5), rng.randint(-5, 5), [it] * rng.randint(0, 2)])
+            elif r < 0.75:
+                ops.append([3, it])
+            elif r < 0.9:
+                ops.append([4, [it] * rng.randint(0, 2)])
+            else:
+                ops.append([5, [it]])
+        add("_ExplodedList/random", [10, base, ops])
 
     # ---- every kind of AnyFormattedText, each object converted three times
     def rand_frs(n=3):
@@ -952,7 +1106,22 @@ def oracle_case(case, res, m):
             if tuple(v) not in cache:
                 cache[tuple(v)] = run_template(cls, p, v)
             return cache[tuple(v)]
-        return oracle_inert(kind, parts, vals, m["holes"], run)
+        return oracle_inert(kind, parts, vals, m["holes"], run, m)
+    if k == 11:
+        from prompt_toolkit.utils import get_cwidth
+        want = sum(get_cwidth(chr(c)) for f in case[2] if ZWE not in unS(f[0]) for c in f[1])
+        if res != want:
+            return ("fragment_list_width(%s) = %r, expected the width of its plain text %r" % (short(to_tuples(case[2]), 120), res, want),
+                    {"op": "fragment_list_width", "family": "width"})
+        return None
+    if k == 12:
+        if not (isinstance(res, list) and all(isinstance(f, list) and len(f) == 3 for f in res)):
+            return ("PygmentsTokens conversion raised or differed on repetition: %s" % short(res, 160), {"op": "PygmentsTokens", "family": "raises"})
+        if "".join(unS(f[1]) for f in res if ZWE not in unS(f[0])) != "".join(unS(t[1]) for t in case[1]):
+            return ("PygmentsTokens(%s): plain text differs from the token texts" % short(case[1], 120), {"op": "PygmentsTokens", "family": "visible-text"})
+        return None
+    if k == 10:
+        return oracle_exploded(case[1], case[2], res)
     if k == 9:
         s = unS(case[1])
         if not (isinstance(res, list) and len(res) == 2 and isinstance(res[0], list)):
@@ -1014,6 +1183,12 @@ def nontrivial(case, res):
         return isinstance(res, list) and len(res) == 2 and res[0] == 0 and len(res[1]) > 0
     if k == 9:
         return isinstance(res, list) and len(res) == 2 and res[0] != case[1]
+    if k == 10:
+        return isinstance(res, list) and any(isinstance(r, list) and len(r) > 0 for r in res)
+    if k == 11:
+        return isinstance(res, int) and res > 0
+    if k == 12:
+        return isinstance(res, list) and len(res) > 0
     if k == 5:
         return isinstance(res, list) and len(res) == 2 and (res[0] != case[1] or res[1] != case[1])
     return False
@@ -1033,6 +1208,12 @@ def describe_case(case):
             return "helpers(style=%r, %s)" % (unS(case[1]), short(to_tuples(case[2]), 120))
         if k in (3, 5, 6, 9):
             return "%s(%s)" % (OPN[k], short(unS(case[1]), 120))
+        if k == 11:
+            return "fragment_list_width(%s)" % short(to_tuples(case[2]), 140)
+        if k == 12:
+            return "PygmentsTokens(%s)" % short(case[1], 140)
+        if k == 10:
+            return "_ExplodedList(%s) ops %s" % (short(to_tuples(case[1]), 80), short(case[2], 120))
         if k == 8:
             return "to_formatted_text(<value %s>, style=%r, auto_convert=%r)" % (short(case[3], 100), unS(case[1]), bool(case[2]))
         if k in (4, 7):
